@@ -127,6 +127,19 @@ def getParam (inj : Str → σ) (params : Params) (name : Str) (required : Bool)
   | none => absent required store
 
 /-! ### `get_param_as_int` -/
+
+/-- `min_value is not None and val < min_value` -/
+def belowMin (minValue : Option Int) (val : Int) : Bool :=
+  match minValue with
+  | some m => decide (val < m)
+  | none => false
+
+/-- `max_value is not None and max_value < val` -/
+def aboveMax (maxValue : Option Int) (val : Int) : Bool :=
+  match maxValue with
+  | some m => decide (m < val)
+  | none => false
+
 def getInt (inj : Int → σ) (params : Params) (name : Str) (required : Bool) (minValue maxValue : Option Int)
     (store : Option (Store σ)) : Out Int σ :=
   match lookup params name with
@@ -138,10 +151,8 @@ def getInt (inj : Int → σ) (params : Params) (name : Str) (required : Bool) (
         match pyInt valStr with                            -- try: val = int(val_str) / except ValueError
         | none => .ret .invalid400 store
         | some val =>
-          -- if min_value is not None and val < min_value
-          if (match minValue with | some m => decide (val < m) | none => false) then .ret .invalid400 store
-          -- if max_value is not None and max_value < val
-          else if (match maxValue with | some m => decide (m < val) | none => false) then .ret .invalid400 store
+          if belowMin minValue val then .ret .invalid400 store
+          else if aboveMax maxValue val then .ret .invalid400 store
           else .ret (.value val) (doStore store name (inj val))
     else absent required store
   | none => absent required store
